@@ -995,3 +995,133 @@ func runArgOrder(c *Ctx) {
 			name+" reorders a list of paths ("+bad+") before it numbers equal base names: the manifest numbers them in argument order, so `1_data` names one directory in the manifest and another in the resolver - the sender reads, checksums and sends the wrong file and both sides report success")
 	}
 }
+
+func init() {
+	Register(&Rule{
+		Name:  "R-RECEIVER-STATE",
+		Props: []string{"C12"},
+		Min:   3,
+		Doc: "a receiver that waits in the queue or owns a slot changes state only through the slot machinery (F27): (idle-cleanup) cleanup() deletes a receiver only past the tests Status != TRANSFERRING and Status != QUEUED; " +
+			"(re-announce) Status is set to JOINED only where the receiver is neither QUEUED nor TRANSFERRING; " +
+			"(dispatch-context) runTransfer never hands its own context (cancelled when its peer leaves) to maybeStartTransfers",
+		Run: runReceiverState,
+	})
+}
+
+func runReceiverState(c *Ctx) {
+	p := c.P
+	statusF, _ := p.LookupObj("internal/app", "ReceiverState.Status").(*types.Var)
+	receivers, _ := p.LookupObj("internal/app", "SnapshotSender.receivers").(*types.Var)
+	if statusF == nil || receivers == nil {
+		c.MissingAnchor("app.ReceiverState.Status / SnapshotSender.receivers")
+		return
+	}
+	cst := func(name string) *types.Const {
+		k, _ := p.LookupObj("internal/app", name).(*types.Const)
+		return k
+	}
+	queued, transferring, joined := cst("ReceiverStatusQueued"), cst("ReceiverStatusTransferring"), cst("ReceiverStatusJoined")
+	if queued == nil || transferring == nil || joined == nil {
+		c.MissingAnchor("app.ReceiverStatus{Queued,Transferring,Joined}")
+		return
+	}
+	notIn := func() *PassSpec {
+		return &PassSpec{SkipDefer: true, Vias: []Via{{Cond: func(g *FuncInfo, e ast.Expr) (string, bool, bool) {
+			be, ok := ast.Unparen(e).(*ast.BinaryExpr)
+			if !ok || (be.Op != token.EQL && be.Op != token.NEQ) {
+				return "", false, false
+			}
+			sel, ok := ast.Unparen(be.X).(*ast.SelectorExpr)
+			if !ok || g.Info().Uses[sel.Sel] != statusF {
+				return "", false, false
+			}
+			switch ObjOf(g.Info(), be.Y) {
+			case types.Object(queued):
+				return "not-queued", be.Op == token.NEQ, true
+			case types.Object(transferring):
+				return "not-transferring", be.Op == token.NEQ, true
+			}
+			return "", false, false
+		}}}}
+	}
+	// (idle-cleanup)
+	if f := p.Func("app.(*SnapshotSender).cleanup"); f != nil {
+		info := f.Info()
+		spec := notIn()
+		n := 0
+		f.CFG().Calls(func(r NodeRef, call *ast.CallExpr) {
+			id, ok := ast.Unparen(call.Fun).(*ast.Ident)
+			if !ok || id.Name != "delete" || len(call.Args) != 2 {
+				return
+			}
+			sel, ok := ast.Unparen(call.Args[0]).(*ast.SelectorExpr)
+			if !ok || info.Uses[sel.Sel] != receivers {
+				return
+			}
+			n++
+			c.Check(spec.Passed(f, r, "not-queued") && spec.Passed(f, r, "not-transferring"), fmt.Sprintf("idle-cleanup/delete#%d", n), call.Pos(), "only receivers that neither wait nor are served are dropped as idle",
+				"cleanup() can delete a receiver whose status is QUEUED or TRANSFERRING: a queued receiver sends nothing while it waits, so after receiverTTL with all slots busy it is dropped from the queue silently and never started")
+		})
+		if n == 0 {
+			c.Unknown("idle-cleanup/delete", f.Pos(), "cleanup() does not delete from s.receivers")
+		}
+	} else {
+		c.MissingAnchor("app.(*SnapshotSender).cleanup")
+	}
+	// (re-announce)
+	nj := 0
+	for _, f := range p.FuncsIn("internal/app") {
+		if !strings.HasPrefix(f.Root().Name, "app.(*SnapshotSender)") {
+			continue
+		}
+		info := f.Info()
+		spec := notIn()
+		f.CFG().EachNode(func(r NodeRef) {
+			as, ok := r.Node().(*ast.AssignStmt)
+			if !ok || len(as.Lhs) != 1 || len(as.Rhs) != 1 {
+				return
+			}
+			sel, ok := ast.Unparen(as.Lhs[0]).(*ast.SelectorExpr)
+			if !ok || info.Uses[sel.Sel] != statusF || ObjOf(info, as.Rhs[0]) != types.Object(joined) {
+				return
+			}
+			nj++
+			c.Check(spec.Passed(f, r, "not-queued") && spec.Passed(f, r, "not-transferring"), fmt.Sprintf("re-announce/%s#%d", f.Name, nj), as.Pos(), "JOINED is only assigned to a receiver that neither waits nor is served",
+				"a receiver's status is reset to JOINED although it may be QUEUED or TRANSFERRING (a second peer_joined for its id): the accept that follows passes the 'already transferring' test, it is queued again and its second slot overwrites the first - more transfers than max-receivers, and a receiver in two states at once")
+		})
+	}
+	if nj == 0 {
+		c.Unknown("re-announce/none", token.NoPos, "found no assignment of ReceiverStatusJoined")
+	}
+	// (dispatch-context)
+	if f := p.Func("app.(*SnapshotSender).runTransfer"); f != nil {
+		info := f.Info()
+		var own types.Object
+		if f.Type.Params != nil && len(f.Type.Params.List) > 0 && len(f.Type.Params.List[0].Names) > 0 {
+			own = info.Defs[f.Type.Params.List[0].Names[0]]
+		}
+		n := 0
+		f.CFG().Calls(func(r NodeRef, call *ast.CallExpr) {
+			if g := p.CalleeInfo(info, call); g == nil || g.Name != "app.(*SnapshotSender).maybeStartTransfers" || len(call.Args) != 1 {
+				return
+			}
+			n++
+			uses := false
+			for _, d := range resolveExprs(f, call.Args[0], 2) {
+				ast.Inspect(d, func(m ast.Node) bool {
+					if id, ok := m.(*ast.Ident); ok && info.Uses[id] == own && own != nil {
+						uses = true
+					}
+					return true
+				})
+			}
+			c.Check(!uses, fmt.Sprintf("dispatch-context/runTransfer#%d", n), call.Pos(), "the next receiver is dispatched on a context that is not this transfer's own",
+				"runTransfer dispatches the next receiver on its own transfer context: when this transfer's peer left, that context is cancelled, and if this goroutine gets there before handlePeerLeft the next queued receiver is started already cancelled, fails at once and loses its turn although it never left")
+		})
+		if n == 0 {
+			c.Unknown("dispatch-context/runTransfer", f.Pos(), "runTransfer does not call maybeStartTransfers")
+		}
+	} else {
+		c.MissingAnchor("app.(*SnapshotSender).runTransfer")
+	}
+}
